@@ -124,8 +124,8 @@ Proof.
     rewrite Ha. cbn [mem]. rewrite Nat.eqb_refl. cbn [orb].
     eexists; split; [reflexivity|]. rewrite remove_one_head. cbn. split; [reflexivity|].
     split; [congruence | reflexivity].
-  - destruct Hs as (_ & Ha1 & Hp1). eexists; split; [reflexivity|]. cbn.
-    rewrite Hp, Hp1, remove_one_head. repeat split; congruence.
+  - destruct Hs as (_ & Ha1 & Hp1). eexists; split; [reflexivity|].
+    unfold aset in *. cbn. rewrite Hp, Hp1, remove_one_head. repeat split; congruence.
 Qed.
 
 Lemma pop_fault_spec st :
@@ -160,19 +160,19 @@ Section Refine.
     - apply Hrec.
     - pose proof (pop_fault_spec st) as Hp. destruct (pop_fault st) as [f st1].
       destruct Hp as (Ha & Hp & Hf).
-      destruct (faults st) as [|b fl]; destruct Hf as [-> Hf1].
-      + intros H; inversion H; subst. rewrite Hf1. auto.
-      + destruct b; intros H; inversion H; subst; rewrite Hf1; auto.
+      destruct (faults st) as [|b fl]; destruct Hf as [Hf0 Hf1]; subst f.
+      + intros H. injection H as <- <-. rewrite Hf1. auto.
+      + destruct b; intros H; injection H as <- <-; rewrite Hf1; auto.
     - pose proof (pop_fault_spec st) as Hp. destruct (pop_fault st) as [f st1].
       destruct Hp as (Ha & Hp & Hf).
-      destruct (faults st) as [|b fl]; destruct Hf as [-> Hf1].
+      destruct (faults st) as [|b fl]; destruct Hf as [Hf0 Hf1]; subst f.
       + destruct (rec v st1) as [x st2] eqn:E. apply Hrec in E. destruct E as (E1 & E2 & E3).
-        intros H; inversion H; subst. rewrite <- Ha, <- Hp, <- Hf1, E1. split; [reflexivity|].
+        intros H. injection H as <- <-. rewrite <- Ha, <- Hp, <- Hf1, E1. split; [reflexivity|].
         split; congruence.
       + destruct b.
-        * intros H; inversion H; subst. rewrite Hf1. auto.
+        * intros H. injection H as <- <-. rewrite Hf1. auto.
         * destruct (rec v st1) as [x st2] eqn:E. apply Hrec in E. destruct E as (E1 & E2 & E3).
-          intros H; inversion H; subst. rewrite <- Ha, <- Hp, <- Hf1, E1. split; [reflexivity|].
+          intros H. injection H as <- <-. rewrite <- Ha, <- Hp, <- Hf1, E1. split; [reflexivity|].
           split; congruence.
   Qed.
 
@@ -253,7 +253,7 @@ Proof.
 Qed.
 
 (** [KeyError] from the epilogue never happens. *)
-Lemma ref_parts_no_key h rrec
+Lemma ref_parts_no_key rrec
   (Hr : forall A P v fl, fst (rrec A P v fl) <> Raise EKey) :
   forall ps A P acc fl, fst (ref_parts rrec A P ps acc fl) <> Raise EKey.
 Proof.
@@ -323,7 +323,9 @@ Qed.
 
 Lemma free_le l n : free l n <= n.
 Proof.
-  unfold free. rewrite <- (seq_length n 0) at 2. apply filter_length_le.
+  unfold free. rewrite <- (seq_length n 0) at 2.
+  generalize (seq 0 n). intros L. induction L as [|x L IH]; cbn; [lia|].
+  destruct (negb (mem x l)); cbn; lia.
 Qed.
 
 Definition measure (h : heap) (st : tstate) : nat :=
@@ -349,7 +351,7 @@ Section Term.
   Variable rec : value -> tstate -> res * tstate.
   Variable m : nat.
   Hypothesis Hrest : forall v st r st', rec v st = (r, st') -> aset st' = aset st /\ pr st' = pr st.
-  Hypothesis Hterm : forall v st, measure h st <= m -> fst (rec v st) <> OutOfFuel.
+  Hypothesis Hterm : forall v st, measure h st < m -> fst (rec v st) <> OutOfFuel.
 
   Lemma render_rest w v st r st' :
     render rec w v st = (r, st') -> aset st' = aset st /\ pr st' = pr st.
@@ -364,18 +366,18 @@ Section Term.
       intros H; inversion H; subst. destruct E; split; congruence.
   Qed.
 
-  Lemma render_term w v st : measure h st <= m -> fst (render rec w v st) <> OutOfFuel.
+  Lemma render_term w v st : measure h st < m -> fst (render rec w v st) <> OutOfFuel.
   Proof.
     intros Hm. unfold render. destruct w as [|tok|tok]; [now apply Hterm| |];
       pose proof (pop_fault_spec st) as Hp; destruct (pop_fault st) as [f st1];
       destruct Hp as (Ha & Hp & _); destruct f; cbn; try discriminate.
-    assert (Hm1 : measure h st1 <= m) by (unfold measure in *; rewrite Ha, Hp; exact Hm).
+    assert (Hm1 : measure h st1 < m) by (unfold measure in *; rewrite Ha, Hp; exact Hm).
     specialize (Hterm v st1 Hm1). destruct (rec v st1) as [x st2]. cbn in *.
     destruct x; cbn; congruence.
   Qed.
 
   Lemma run_parts_term ps : forall acc st,
-    measure h st <= m -> fst (run_parts rec ps acc st) <> OutOfFuel.
+    measure h st < m -> fst (run_parts rec ps acc st) <> OutOfFuel.
   Proof.
     induction ps as [|p ps IH]; intros acc st Hm; cbn; [discriminate|].
     destruct p as [s|v w|]; [now apply IH | | cbn; discriminate].
@@ -385,13 +387,13 @@ Section Term.
     apply IH. unfold measure in *. rewrite Ea, Ep. exact Hm.
   Qed.
 
-  Lemma repr_body_term v st : measure h st <= S m -> fst (repr_body h rec v st) <> OutOfFuel.
+  Lemma repr_body_term v st : measure h st < S m -> fst (repr_body h rec v st) <> OutOfFuel.
   Proof.
     intros Hm. unfold repr_body, repr_obj. destruct v as [o|]; [|cbn; discriminate].
     destruct (compile h o) as [[s|g marker ps]|] eqn:Ec; [cbn; discriminate | | cbn; discriminate].
     destruct (enter g o st) as [st1|] eqn:He; [|cbn; discriminate].
     pose proof (enter_measure h g o st st1 (compile_valid _ _ _ Ec) He) as Hlt.
-    assert (Hm1 : measure h st1 <= m) by lia.
+    assert (Hm1 : measure h st1 < m) by lia.
     pose proof (run_parts_term ps "" st1 Hm1) as Ht.
     destruct (run_parts rec ps "" st1) as [x st2]. cbn in Ht.
     unfold leave. destruct g.
@@ -404,10 +406,10 @@ Lemma repr_terminates_gen h : forall n v st,
   measure h st < n -> fst (repr_val h n v st) <> OutOfFuel.
 Proof.
   induction n as [|n IH]; intros v st Hm; [lia|]. cbn.
-  apply repr_body_term with (m := n - 1 + 0).
+  apply repr_body_term with (m := n).
   - intros v0 st0 r st' H. eapply repr_residue_free_l; eauto.
-  - intros v0 st0 Hm0. destruct n as [|n]; [lia|]. apply IH. lia.
-  - lia.
+  - exact IH.
+  - exact Hm.
 Qed.
 
 Lemma measure_le h st : measure h st <= 2 * List.length h.
@@ -508,8 +510,9 @@ Qed.
 Lemma anr_filter fs :
   attr_names_with_reprs fs = map (fun f => (f_name f, how_of f, f_init f)) (filter enabled fs).
 Proof.
-  induction fs as [|f fs IH]; cbn; [reflexivity|].
-  unfold enabled, how_of. destruct (f_repr f); cbn; now rewrite IH.
+  induction fs as [|f fs IH]; cbn; [reflexivity|]. rewrite IH.
+  assert (He : enabled f = match f_repr f with RFalse => false | _ => true end) by reflexivity.
+  rewrite He. destruct (f_repr f) eqn:E; cbn; unfold how_of; rewrite ?E; reflexivity.
 Qed.
 
 Lemma instantiate_app a b qn attrs :
@@ -524,9 +527,10 @@ Fixpoint tailj (l : list string) : string :=
 
 Lemma join_cons x r : join ", " (x :: r) = x ^^ tailj r.
 Proof.
-  revert x. induction r as [|y r IH]; intros x; cbn [join tailj].
-  - now rewrite app_nil_r_s.
-  - now rewrite IH.
+  revert x. induction r as [|y r IH]; intros x.
+  - cbn. now rewrite app_nil_r_s.
+  - change (join ", " (x :: y :: r)) with (x ^^ ", " ^^ join ", " (y :: r)).
+    rewrite IH. reflexivity.
 Qed.
 
 Definition joined (first : bool) (l : list string) : string :=
@@ -601,7 +605,8 @@ Proof.
   apply run_fragments in Er.
   2:{ intros v0 st0 r0 st0' H0. eapply repr_residue_free_l; eauto. }
   destruct Er as (rs & HF & ->). exists rs. rewrite Ha1, Hp1 in HF. split; [|exact HF].
-  unfold format_spec. cbn [joined]. cbn. reflexivity.
+  unfold format_spec. cbn [joined]. change ("" ^^ qualtail qn) with (qualtail qn).
+  now rewrite app_assoc_s.
 Qed.
 
 (** [NOTHING] is shown for an unset [init=False] field. *)
